@@ -493,8 +493,19 @@ func (e *Executor) LoadDependencyOutputs(
 
 		targetResult, err := e.targetCache.Load(ctx, localDep.ChangeHash)
 		if err != nil {
-			// We cannot even get the target cache: re-run immediately
-			return rerunDependency()
+			// The result of the dependency cannot be read (any more). If its outputs were already
+			// produced in this build they are in the workspace; otherwise it has to run again, which
+			// needs the outputs of its own dependencies first. Either way carry on with the remaining
+			// dependencies: returning here would let the target run without their outputs.
+			if !localDep.OutputsLoaded {
+				if recursiveLoadErr := e.LoadDependencyOutputs(ctx, localDep, update); recursiveLoadErr != nil {
+					return recursiveLoadErr
+				}
+				if rerunError := rerunDependency(); rerunError != nil {
+					return rerunError
+				}
+			}
+			continue
 		}
 
 		progress := worker.NewProgressTracker(
